@@ -225,8 +225,9 @@ def builtin_matrix(registry):
         if name.startswith("TextProp"):      # a property defined without / with an index, used the other way round
             for use in ('Text.tellraw(@a, "&<s(x)>b");', 'Text.tellraw(@a, "&<s>a");', 'Text.tellraw(@a, "&<s()>a");',
                         'Text.title(@a, "&<s, s>a");', 'Text.tellraw(@a, "&<!s>a &<s(>b");'):
-                yield ("builtin_matrix", (name, "context", use)), dict(src=name + "(" + kw + "); function u() { " + use + " }",
-                                                                       header=None, pack_format=None)
+                for form, a_ in (("kw", kw), ("pos", pos)):
+                    yield ("builtin_matrix", (name, "context", form + ":" + use)), dict(
+                        src=name + "(" + a_ + "); function u() { " + use + " }", header=None, pack_format=None)
         # the same call under execute / as a value / as a condition (wrong-context forms)
         for ctx in ("execute as @a run %s", "$r = %s", "if (%s) { say \"t\"; }", "return %s", "%s", "execute if %s run say \"t\";"):
             call = name + "(" + kw + ")" + ("" if ctx.startswith(("if", "execute if")) else ";")
@@ -315,8 +316,9 @@ def stress(tier: str):
         out.append((name, size, dict(src=src, header=header, pack_format=None)))
 
     rep = 'Hardcode.repeat((i) => { say "Hardcode.calc(%s)"; }, start=1, stop=2);'
-    for e in ["9**9**9", "2**999999999", "(2**9999)**9999", "10**10**10", "2**(2**40)", "-2**2**31", "3**3**3**3", "7**77777777%5",
-              "2**2**2**2**2**2", "(9**9999)*(9**9999)*(9**9999)*(9**9999)", "9" * 20000, "1" + "*9**4507" * 300, "2" + "**2" * 8]:
+    pows = ["9**9**9", "2**999999999", "(2**9999)**9999", "1" + "*9**4507" * 300, "10**10**10", "2**(2**40)", "-2**2**31", "3**3**3**3",
+            "7**77777777%5", "2**2**2**2**2**2", "(9**9999)*(9**9999)*(9**9999)*(9**9999)", "9" * 20000, "2" + "**2" * 8]
+    for e in pows[:4 if tier == "quick" else None]:      # (every one that hangs costs a whole alarm)
         add("pow:calc:" + e[:24], len(e), rep % e)
         add("pow:eval:" + e[:24], len(e), "function f() { $x = EVAL(%s); }" % e, "#bind EVAL")
         add("pow:expr:" + e[:24], len(e), "function f() { $x := %s; }" % e)
@@ -365,11 +367,14 @@ def stress(tier: str):
 
 
 # ------------------------------------------------------------------------------------------------ quick-tier sampling
+_HUGE_POWER = re.compile(r"\*\*[\s(]*-?\d{5,}|\*\*[^;\"]*\*\*|\d{300,}")
+
+
 def quick_sample(stream: str, items: list, rng) -> list:
     """seeded sample for the quick tier; always: every cheap exhaustive part, and one member of every cell"""
     if stream == "nested_decls":
         return items
-    keep, cells = [], {}
+    keep, cells, huge = [], {}, {}
     for it in items:
         (st, cell), job = it
         if stream == "header_forms":
@@ -381,6 +386,10 @@ def quick_sample(stream: str, items: list, rng) -> list:
             key = (cell[0], cell[1]) if not always else None          # per (built-in, parameter)
             quota = 10
         else:   # arithmetic
+            if cell[1] == "degenerate" and _HUGE_POWER.search(job["src"] + (job["header"] or "")):
+                # candidates for an unbounded power: each costs a whole alarm where it hangs - two sites per expression
+                huge.setdefault(cell[2], []).append(it)
+                continue
             always = cell[1] == "degenerate" or (cell[1] == "exhaustive" and isinstance(cell[2], int) and cell[2] <= 2)
             key = (cell[0], cell[1])
             quota = 40 if cell[1] == "exhaustive" else 10
@@ -389,6 +398,9 @@ def quick_sample(stream: str, items: list, rng) -> list:
         else:
             cells.setdefault(key, (quota, []))[1].append(it)
     extra = []
+    for n, key in enumerate(sorted(huge)):
+        members = huge[key]
+        extra += [members[n % len(members)], members[(n + len(members) // 2) % len(members)]]
     for key in sorted(cells, key=str):
         quota, members = cells[key]
         extra += rng.sample(members, min(quota, len(members)))
